@@ -100,7 +100,7 @@ P = {
    "§4 C15"),
  "C16": (True,
    "token-count abstract interpretation of every goroutine stage in helper/ (Engine B) compared with a frozen slice-model table by exact linear entailment",
-   "Static analysis. For each stream helper the output length, the number of elements taken from every input, consumption to the end, anchor, fill prefix, output capacity, close-on-every-path and close/drain order are derived from the helper's own source for symbolic input lengths (one symbol per input) and parameters, and proved equal to the slice model for ALL lengths and parameters in the documented domain. Which values are emitted is not decided.",
+   "Static analysis. For each stream helper the output length, the number of elements taken from every input, consumption to the end, anchor, fill prefix, output capacity, close-on-every-path and close/drain order are derived from the helper's own source for symbolic input lengths (one symbol per input) and parameters, and proved equal to the slice model for ALL lengths and parameters in the documented domain. Values: for the 27 arithmetic and copying helpers the term every output element carries (closures inlined, delays from the anchors) is compared with the model term as a rational function (helper-model/value); values of the higher-order helpers are the caller's function, Last/Echo/Count/SliceToChan values are not decided.",
    "Trusts go/types, the model table (DESIGN appendix B), the Ring fullness model and the Fourier–Motzkin procedure. Seq, Field and the codecs are outside the statement and listed as not modelled in the evidence.",
    "§4 C16"),
 }
